@@ -103,10 +103,14 @@ pub fn collapse_edge<T: CoordsFloat>(
     let (b0l, b1l) = (map.beta_transac::<0>(t, l)?, map.beta_transac::<1>(t, l)?);
     let (b0r, b1r) = (map.beta_transac::<0>(t, r)?, map.beta_transac::<1>(t, r)?);
 
-    if map.beta_transac::<1>(t, b1l)? != b0l {
+    // (a dart without successor or predecessor -- an open face, or an edge that has been removed
+    // in the meantime -- is not part of a triangle either)
+    if b0l == NULL_DART_ID || b1l == NULL_DART_ID || map.beta_transac::<1>(t, b1l)? != b0l {
         abort(EdgeCollapseError::BadTopology)?;
     }
-    if r != NULL_DART_ID && map.beta_transac::<1>(t, b1r)? != b0r {
+    if r != NULL_DART_ID
+        && (b0r == NULL_DART_ID || b1r == NULL_DART_ID || map.beta_transac::<1>(t, b1r)? != b0r)
+    {
         abort(EdgeCollapseError::BadTopology)?;
     }
 
@@ -125,7 +129,8 @@ pub fn collapse_edge<T: CoordsFloat>(
         ),
     };
 
-    if !is_orbit_orientation_consistent(t, map, new_vid)? {
+    // no vertex is left when the collapse removed an isolated cell: nothing to check then
+    if new_vid != NULL_VERTEX_ID && !is_orbit_orientation_consistent(t, map, new_vid)? {
         abort(EdgeCollapseError::InvertedOrientation)?;
     }
 
